@@ -15,6 +15,7 @@ import (
 	"strings"
 
 	"honnef.co/go/tools/analysis/facts/generated"
+	"honnef.co/go/tools/analysis/lint"
 )
 
 // ugChunk is one top-level declaration; "%S" marks a slot.
@@ -80,6 +81,13 @@ var ugSwap struct {
 	chunk, a, b int
 }
 
+// ugIgnore, when set, puts a //lint:ignore U1000 directive on its own line
+// directly above the given declaration.
+var ugIgnore struct {
+	on    bool
+	chunk int
+}
+
 const ugNSlots = 4 // m2, f1, Exported x 2 (in skeleton order)
 
 // ugKey identifies an object independently of declaration order.
@@ -117,6 +125,10 @@ func ugBuild(order []int, split int, slots [ugNSlots]int, del map[[2]int]bool) *
 		line := 3
 		var starts []int
 		for _, ci := range part {
+			if ugIgnore.on && ugIgnore.chunk == ci && !del[[2]int{ci, -1}] {
+				sb.WriteString("//lint:ignore U1000 kept on purpose\n")
+				line++
+			}
 			starts = append(starts, line)
 			if del[[2]int{ci, -1}] {
 				continue
@@ -227,7 +239,11 @@ func ugCheck(p *ugProgram, reverseFiles bool) *ugAnalysis {
 
 // ugAnalyze runs the real U1000 graph construction and verdict computation.
 func (a *ugAnalysis) analyze() {
-	g := newGraph(a.fset, a.files, a.pkg, a.info, nil, map[string]generated.Generator{}, DefaultOptions)
+	var dirs []lint.Directive
+	if ugIgnore.on {
+		dirs = lint.ParseDirectives(a.files, a.fset)
+	}
+	g := newGraph(a.fset, a.files, a.pkg, a.info, dirs, map[string]generated.Generator{}, DefaultOptions)
 	g.entry()
 	sg := &SerializedGraph{nodes: g.nodes}
 	a.res = sg.Results()
